@@ -75,6 +75,34 @@ Fixpoint lines (d : bytes) : list line :=
            end
   end.
 
+(* The same function statement by statement:
+     l := strings.SplitAfter(string(x), "\n")
+     if l[len(l)-1] == "" { l = l[:len(l)-1] } else { l[len(l)-1] += "\n\\ No newline at end of file\n" }
+     return l
+   strings.SplitAfter with a one-byte separator: the pieces end after each separator, the last
+   piece is what remains (possibly empty); there is always at least one piece. *)
+Fixpoint split_after (c : byte) (d : bytes) : list bytes :=
+  match d with
+  | [] => [[]]
+  | b :: r =>
+      if beq b c then [b] :: split_after c r
+      else match split_after c r with
+           | l :: ls => (b :: l) :: ls
+           | [] => [[b]]
+           end
+  end.
+
+Definition lines_go (d : bytes) : res (list line) :=
+  match lines_sep with
+  | [c] =>
+      let l := split_after c d in
+      do k <- sub_chk (length l) 1;
+      do last <- idx l k;
+      if bytes_eqb last [] then slice l 0 k
+      else upd l k (last ++ no_newline_msg)
+  | _ => Panic   (* separators of other lengths are not modelled *)
+  end.
+
 (* ---------------------------------------------------------------- tgs *)
 
 (* map[string]int as an association list; m[s] of a missing key is 0 *)
@@ -320,17 +348,43 @@ Definition dec (n : nat) : bytes := uint_bytes (Nat.to_uint n).
 Definition tag_byte (t : tag) : byte :=
   match t with TCtx => x20 | TDel => x2d | TAdd => x2b end.
 
-(* "@@ -%d,%d +%d,%d @@\n" followed by the chunk lines *)
+(* fmt.Sprintf for the verbs the four format strings of Diff use: %s with a string, %d with an
+   int, %% ; anything else prints the marker [bad_verb] (Go prints a %!verb(...) diagnostic; the
+   shape lemmas in DiffBase.v show that the marker never appears with the regenerated formats) *)
+Inductive farg := AStr (s : bytes) | ANat (n : nat).
+
+Definition bad_verb : bytes := [x25; x21; x28; x42; x41; x44; x56; x45; x52; x42; x29].
+
+Fixpoint sprintf (f : bytes) (args : list farg) : bytes :=
+  match f with
+  | [] => []
+  | c :: r =>
+      if beq c x25 then
+        match r with
+        | v :: r' =>
+            if beq v x25 then x25 :: sprintf r' args
+            else match args with
+                 | AStr s :: args' =>
+                     if beq v x73 then s ++ sprintf r' args' else bad_verb ++ sprintf r' args'
+                 | ANat n :: args' =>
+                     if beq v x64 then dec n ++ sprintf r' args' else bad_verb ++ sprintf r' args'
+                 | [] => bad_verb ++ sprintf r' []
+                 end
+        | [] => bad_verb
+        end
+      else c :: sprintf r args
+  end.
+
+(* fmt.Fprintf(&out, fmt_hunk, chunk.x, count.x, chunk.y, count.y) followed by the chunk lines *)
 Definition render_hunk (h : hunk) : bytes :=
-  [x40; x40; x20; x2d] ++ dec (sx h) ++ [x2c] ++ dec (cx h) ++
-  [x20; x2b] ++ dec (sy h) ++ [x2c] ++ dec (cy h) ++ [x20; x40; x40; x0a] ++
+  sprintf fmt_hunk [ANat (sx h); ANat (cx h); ANat (sy h); ANat (cy h)] ++
   concat (map (fun tl => tag_byte (fst tl) :: snd tl) (body h)).
 
-(* "diff %s %s\n" "--- %s\n" "+++ %s\n" *)
+(* the three header Fprintf calls *)
 Definition render_header (oldName newName : bytes) : bytes :=
-  [x64; x69; x66; x66; x20] ++ oldName ++ [x20] ++ newName ++ [x0a] ++
-  [x2d; x2d; x2d; x20] ++ oldName ++ [x0a] ++
-  [x2b; x2b; x2b; x20] ++ newName ++ [x0a].
+  sprintf fmt_header_diff [AStr oldName; AStr newName] ++
+  sprintf fmt_header_old [AStr oldName] ++
+  sprintf fmt_header_new [AStr newName].
 
 Definition render (oldName newName : bytes) (hs : list hunk) : bytes :=
   render_header oldName newName ++ concat (map render_hunk hs).
